@@ -150,6 +150,37 @@ static void part_fpflow(const std::vector<unsigned>& ns) {
         }
         R.maxnum("worst_fpflow_difference_over_tol", worst);
     }
+    // the stochastic model against a grid that is only damped, at large decrements (0.1, 0.2 per step: short damping times, few steps per period): the mean of an ensemble
+    // placed on a blob's centre moves as the blob's centroid does (the noise has zero mean)
+    for (unsigned n : ns) for (int ie = 0; ie < 2; ie++) for (int sy = 0; sy < 2; sy++) {
+        std::string kase = mcx::Desc()("part", "fpflow-stochastic")("n", n)("e1idx", ie)("shifty", sy).str();
+        if (!R.mine(kase)) continue;
+        if (R.out_of_time()) { R.not_completed = kase; return; }
+        set_size(n, 1);
+        auto in = mkps_shift(n, 12, 0, sy * 3, {1.f}), out = mkps_shift(n, 12, 0, sy * 3, {1.f});
+        const double e1 = ie == 0 ? 0.1 : 0.2;
+        FokkerPlanckMap m(in, out, n, n, FokkerPlanckMap::FPType::damping_only, FokkerPlanckMap::FPTracking::stochastic, e1, FokkerPlanckMap::DerivationType::cubic, nullptr);
+        m._prng.seed(4711 + n + ie); m._normdist.reset();
+        const double zb = in->getAxis(1)->zerobin(), sig = 2.5; const unsigned c0 = n / 2, NP = 4096;
+        double worst = 0;
+        for (unsigned yc = 9; yc + 9 < n; yc += 4) {
+            float* din = in->getData(); std::fill(din, din + (size_t)n * n, 0.f);
+            for (unsigned y = 0; y < n; y++) din[(size_t)c0 * n + y] = (float)std::exp(-0.5 * (y - (double)yc) * (y - (double)yc) / (sig * sig));
+            double q0 = 0, m0 = 0; for (unsigned y = 0; y < n; y++) { q0 += din[(size_t)c0 * n + y]; m0 += (double)din[(size_t)c0 * n + y] * y; }
+            std::vector<PhaseSpace::Position> en(NP, PhaseSpace::Position{(float)c0, (float)yc});
+            m.apply(); m.applyToAll(en);
+            const float* o = out->getData(); double q1 = 0, m1 = 0; for (unsigned y = 0; y < n; y++) { q1 += o[(size_t)c0 * n + y]; m1 += (double)o[(size_t)c0 * n + y] * y; }
+            double mu = 0, var = 0; for (auto& p : en) mu += p.y; mu /= NP; for (auto& p : en) var += (p.y - mu) * (p.y - mu); var /= NP;
+            const double dc = m1 / q1 - m0 / q0, dp = mu - yc, tol = 5 * std::sqrt(var / NP) + 0.1 * e1 * std::fabs(yc - zb) + 0.01;
+            R.eval(kase + " row=" + std::to_string(yc), mcx::fnv(&dp, 8, mcx::fnvs(kase) + yc), false);
+            worst = std::max(worst, std::fabs(dp - dc) / tol);
+            if (!(std::fabs(dp - dc) <= tol)) {
+                char d[240]; snprintf(d, 240, "blob centred on row %u (zero-energy row %.4g, e1 %g): the charge's centre moves by %.5f cells, the mean of %u particles by %.5f", yc, zb, e1, dc, NP, dp);
+                R.violate("C15/FokkerPlanck/flow/stochastic/mean-does-not-follow-flow", kase, d); break;
+            }
+        }
+        R.maxnum("worst_fpflow_stochastic_difference_over_tol", worst);
+    }
     R.bound_done("fpflow: n x 4 Fokker-Planck types x 2 deterministic tracking approximations x stencils x 3 decrements x 2 zero-bin shifts x blob rows: particle shift = centroid shift of the blob it sits on");
 }
 
